@@ -3,7 +3,7 @@ from __future__ import annotations
 import asyncio
 import time
 from datetime import datetime
-from typing import TYPE_CHECKING, Coroutine, cast
+from typing import TYPE_CHECKING, Any, Coroutine, cast
 
 from repid._utils import _ArgsBucketInMessageId, _NoAction
 from repid.actor import ActorData, ActorResult
@@ -18,12 +18,20 @@ if TYPE_CHECKING:
     from repid.dependencies.protocols import AnnotatedDependencyT, DirectDependencyT
 
 
+async def _emit_actor_run_signal(name: str, kwargs: dict[str, Any]) -> None:
+    connection: Connection | None = kwargs.get("connection")
+    if connection is not None:
+        await connection.middleware.emit_signal(name, kwargs)
+
+
 class _Processor:
     __slots__ = ("_conn", "_processed")
 
     def __init__(self, _conn: Connection) -> None:
         self._conn = _conn
-        self.actor_run._repid_signal_emitter = self._conn.middleware.emit_signal
+        # `actor_run` is wrapped once, on the class: its signals are routed per call to the
+        # middleware of the connection the call was made with (see `_emit_actor_run_signal`)
+        self.actor_run._repid_signal_emitter = _emit_actor_run_signal
         self._processed = 0
 
     async def get_payload(self, initial_payload: str) -> str:
